@@ -1,8 +1,3 @@
 package main
 
-func (cx *Ctx) runC15() { cx.trouble("C15 not implemented yet") }
-func (cx *Ctx) runC18() { cx.trouble("C18 not implemented yet") }
 func (cx *Ctx) selftest() int { return 2 }
-func (cx *Ctx) oracleC15(rs []JobResult) (bool, string, string, string)      { return false, "", "", "" }
-func (cx *Ctx) oracleRealRace(rs []JobResult) (bool, string, string, string) { return false, "", "", "" }
-func (cx *Ctx) oracleC18(rs []JobResult) (bool, string, string, string)      { return false, "", "", "" }
